@@ -34,6 +34,34 @@ Proof.
   destruct (N.eqb_spec (incr_seq last) 0); [contradiction|]. cbn [negb andb]. rewrite E. apply N.eqb_refl.
 Qed.
 
+(* closed form of k successive increments: a walk round the cycle 1..2^32-1 *)
+Lemma iter_incr_closed k : forall n, 1 <= n -> n < 0x100000000 ->
+  iter_incr k n = (n - 1 + N.of_nat k) mod 0xffffffff + 1.
+Proof.
+  induction k as [|k IH]; intros n H1 H2.
+  - cbn [iter_incr]. change (N.of_nat 0) with 0. lia.
+  - cbn [iter_incr]. rewrite (IH n H1 H2).
+    set (x := n - 1 + N.of_nat k).
+    assert (Hx : n - 1 + N.of_nat (S k) = x + 1) by (subst x; lia).
+    rewrite Hx.
+    assert (Hy : x mod 0xffffffff + 1 < 0x100000000) by lia.
+    destruct (incr_seq_spec _ Hy) as [E _]. rewrite E.
+    destruct (N.eqb_spec (x mod 0xffffffff + 1) 0xffffffff) as [Heq|Hne]; lia.
+Qed.
+
+(* no sequence number is used twice within 2^32-1 consecutive requests, and none is 0 *)
+Lemma iter_incr_distinct n j k : 1 <= n -> n < 0x100000000 ->
+  (j < k)%nat -> N.of_nat k - N.of_nat j < 0xffffffff ->
+  iter_incr j n <> iter_incr k n /\ iter_incr k n <> 0.
+Proof.
+  intros H1 H2 Hjk Hd. rewrite !iter_incr_closed by assumption. lia.
+Qed.
+
+(* ... and after exactly 2^32-1 requests the counter is back where it started *)
+Lemma iter_incr_period n k : 1 <= n -> n < 0x100000000 -> N.of_nat k = 0xffffffff ->
+  iter_incr k n = n.
+Proof. intros H1 H2 Hk. rewrite iter_incr_closed by assumption. rewrite Hk. lia. Qed.
+
 (* ---------- strongest authentication type ---------- *)
 Lemma strongest support : max_auth_type support (Some SUPPORTED_AUTH_TYPES) = best support.
 Proof.
